@@ -319,7 +319,11 @@ CloseEffect(o) ==
   ELSE [t |-> CloseNum(CloseNum(tab, ob.fd), ob.fd2),
         r |-> IF ob.kind \in {"io", "timer"} THEN reg ELSE DeregO(reg, ob.fd, o),
         sv |-> IF ob.kind \in {"io", "timer"} THEN 0 ELSE Survivor(reg, ob.fd, o),
-        ob |-> [ob EXCEPT !.closed = TRUE, !.ncl = @ + 1, !.evr = FALSE, !.evw = FALSE, !.rk = ""]]
+        \* (ghost: which directions were parked when the object was closed after its IO context - the poller's
+        \*  calls fail then, and which of them fails depends on the direction)
+        ob |-> [ob EXCEPT !.closed = TRUE, !.ncl = @ + 1, !.evr = FALSE, !.evw = FALSE,
+                          !.rk = IF iodead /\ (ob.evr \/ ob.evw)
+                                   THEN "ioclosed-" \o (IF ob.evr THEN "r" ELSE "") \o (IF ob.evw THEN "w" ELSE "") ELSE ""]]
 
 DoClose(o) ==
   LET ob == objs[o]
